@@ -7,6 +7,12 @@ ROOT = os.path.dirname(os.path.dirname(os.path.abspath(__file__)))
 ALL = ["C%02d" % i for i in range(1, 21)]
 
 CHECKS = {
+    "C07": dict(
+        technique="Lean 4 theorems about a generic crash/restart model (a life marks exactly the panicking entry and dies; restarts converge to the replay of the marked log) plus the IRC instance of the marker effect, wiring facts regenerated from statemachine.go; child-process runs of the real FSM with the test-only PANIC command, SIGKILL-free real process exits, restart and replay",
+        text="Machine-checked proof, for any state machine and any log, that a process life which hits a panicking entry rewrites exactly that entry as message of death (same message, nothing else changes, all earlier entries applied normally) and terminates, that a surviving life leaves the log untouched, and that after at most one restart per unmarked entry the node is up with exactly the state of replaying the marked log — marked entries having only the marker effect, which in the IRC instance is proved to touch only the named session's duplicate-detection marker and activity times and to produce no output. The recover handler's order mark -> store -> exit and the skip of already-marked entries are re-extracted from the source on every run; real crash/restart runs in child processes check marking, exit status, state and marker on the real code.",
+        design_ref="DESIGN.md §4 C07",
+        note="Trusts: Lean kernel; tools/extract; raft replays the durable log in order after restart; LevelDB durability across process exit; glog.Fatalf exits the process. The model is generic: which entries panic is whatever the real handlers do.",
+    ),
     "C15": dict(
         technique="Lean 4 theorems about the byte-level model of irc.ParseMessage / Message.Bytes and of the handlers' firstLine cut (clean in => one clean line out, <= 510 bytes), regenerated facts pinning both HTTP handlers to firstLine with cutset CR/LF/NUL, correspondence of the whole IRC layer with the real code, line predicate on every delivered line",
         text="Machine-checked proof that rendering never exceeds 510 bytes, that a message assembled from strings without CR/LF/NUL renders to bytes without CR/LF/NUL (UTF-8 encoding lemma included), that parsing a clean line yields clean prefix/command/parameters (case-mapping tables checked by kernel evaluation), that firstLine returns a clean prefix of its input, and that posted text after cut+parse+render is one clean line; the handlers' use of firstLine and its cutset are re-extracted from the Go source on every run. State-level propagation through all handlers is not yet a theorem (partial): it is covered by the correspondence run plus a line predicate on every output line of every generated history.",
